@@ -147,6 +147,11 @@ def check_object(obj, exp, where):
         if cls in ("PDF", "DiagPDF") and not isinstance(obj, pdf.GaussianPDF):
             raise Mismatch(where + ".class", type(obj).__name__, cls, "not a density")
         check_measure_family(obj, exp, where)
+    elif cls in ("Trunc", "TruncPDF"):
+        from gaussian_toolbox.experimental import truncated_measure as _tm
+        want = _tm.TruncatedGaussianPDF if cls == "TruncPDF" else _tm.TruncatedGaussianMeasure
+        if not isinstance(obj, want):
+            raise Mismatch(where + ".class", type(obj).__name__, cls, "not a truncated measure/density")
     else:
         from . import bindings_cond
         bindings_cond.check_conditional(obj, exp, where)
@@ -409,4 +414,4 @@ class Replayer:
         return None
 
 
-from . import bindings_cond  # noqa: E402,F401  (registers the density / conditional bindings)
+from . import bindings_cond, bindings_trunc  # noqa: E402,F401  (register the remaining bindings)
